@@ -1626,19 +1626,32 @@ pub fn enumerate_outcomes(p: &Program, cap: usize, spurious_ok: bool) -> Option<
                         n.tasks[t].st = TSt::Pending { micro: 0, tries: 0 };
                         n.tasks[t].label = labels[t][s.tasks[t].pc].clone();
                     } else {
-                        // implicit release of guards still held, then exit
+                        // implicit release of the guards still held, one at a time and in the interpreter's
+                        // order (each release is a separate visible operation with its own choice point)
+                        let mut released = false;
                         for m in 0..n.mutex.len() {
                             if n.mutex[m].owner == Some(t) {
                                 n.mutex[m].owner = None;
+                                released = true;
+                                break;
                             }
                         }
-                        for r in 0..n.rw.len() {
-                            n.rw[r].readers.remove(&t);
-                            if n.rw[r].writer == Some(t) {
-                                n.rw[r].writer = None;
+                        if !released {
+                            for r in 0..n.rw.len() {
+                                if n.rw[r].readers.remove(&t) {
+                                    released = true;
+                                    break;
+                                }
+                                if n.rw[r].writer == Some(t) {
+                                    n.rw[r].writer = None;
+                                    released = true;
+                                    break;
+                                }
                             }
                         }
-                        n.tasks[t].st = TSt::Exiting;
+                        if !released {
+                            n.tasks[t].st = TSt::Exiting;
+                        }
                     }
                     succ.push((n, res.clone()));
                 }
